@@ -26,6 +26,9 @@ type c04Case struct {
 	// Twin: the buffer under test is parent.Slice(0, parent.Length()) of parent = Alloc(C, L, P): a second
 	// header over the same window.  Appending through one must not change the other's length.
 	Twin bool `json:"twin,omitempty"`
+	// ChanViews: the per-channel views of Alloc(C, L, P) are taken first, the samples appended afterwards:
+	// the views share the storage and see the appended values and the growing length
+	ChanViews bool `json:"chan_views,omitempty"`
 }
 
 func c04Run(cs c04Case) []F {
@@ -39,6 +42,41 @@ func c04RunRaw(cs c04Case) (fs []F) {
 	}
 	if cs.GCWindow {
 		return gcReplay(t, gcShape{cs.C, cs.P, cs.S, cs.S + cs.L}, true, "AppendSample")
+	}
+	if cs.ChanViews {
+		fail := func(kind, format string, a ...any) {
+			fs = append(fs, core.Failf("AppendSample/"+kind, "%+v: %s", cs, fmt.Sprintf(format, a...)))
+		}
+		b := dyn.Alloc(t, al(cs.C, cs.L, cs.P))
+		views := make([]dyn.Chan, cs.C)
+		for c := range views {
+			views[c] = b.Channel(c)
+		}
+		n := cs.C * cs.L
+		for k := 1; k <= cs.N; k++ {
+			b.AppendSample(dyn.Tok(t, tk(int64(10+k))))
+			if n < cs.C*cs.P {
+				n++
+			}
+			for c, v := range views {
+				if v.Length() != ceilDiv(n, cs.C) || v.Capacity() != cs.P || v.Channels() != 1 && v.Channels() != cs.C {
+					fail("channel-view", "after call %d (Len %d) the view of channel %d taken before the calls has Length %d Capacity %d, the buffer Length %d Capacity %d", k, b.Len(), c, v.Length(), v.Capacity(), b.Length(), b.Capacity())
+					return
+				}
+				for f := 0; f*cs.C+c < n; f++ {
+					var got dyn.Val
+					if pn, msg := dyn.Try(func() { got = v.Sample(f) }); pn {
+						fail("channel-view", "after call %d (Len %d) Sample(%d) of the view of channel %d taken before the calls panicked: %s", k, b.Len(), f, c, msg)
+						return
+					}
+					if want := b.Sample(f*cs.C + c); got != want {
+						fail("channel-view", "after call %d Sample(%d) of the view of channel %d taken before the calls reads %v, the buffer holds %v there", k, f, c, got, want)
+						return
+					}
+				}
+			}
+		}
+		return
 	}
 	if cs.Twin {
 		fail := func(kind, format string, a ...any) {
@@ -193,6 +231,15 @@ func init() {
 					for P := 1; P <= 4; P++ {
 						for L := 0; L < P; L++ {
 							cases = append(cases, c04Case{Type: tn(t), C: C, P: P, L: L, Twin: true, N: C*(P-L) + 2})
+						}
+					}
+				}
+			}
+			for _, t := range []int{dyn.Int8, dyn.Int32, dyn.Float64} { // per-channel views taken before the calls
+				for C := 1; C <= 3; C++ {
+					for P := 1; P <= 4; P++ {
+						for L := 0; L < P; L += 2 {
+							cases = append(cases, c04Case{Type: tn(t), C: C, P: P, L: L, ChanViews: true, N: C*(P-L) + 2})
 						}
 					}
 				}
